@@ -6,6 +6,8 @@ package main
 
 import (
 	"fmt"
+	"go/constant"
+	"regexp/syntax"
 	"sort"
 	"strings"
 
@@ -125,4 +127,135 @@ func writesGlobal(fn *ssa.Function, gl *ssa.Global) bool {
 		}
 	}
 	return false
+}
+
+// globalSetNonNilOnce: every store to the variable in the module is in a package initialiser and stores a value that
+// cannot be nil (make(...), a composite literal, regexp.MustCompile); there is at least one such store.
+func (g *Gen) globalSetNonNilOnce(gl *ssa.Global) bool {
+	if r, ok := g.globalNonNil[gl]; ok {
+		return r
+	}
+	n, good := 0, true
+	for _, fname := range g.fnames {
+		fn := g.funcs[fname]
+		for _, b := range fn.Blocks {
+			for _, ins := range b.Instrs {
+				st, ok := ins.(*ssa.Store)
+				if !ok || st.Addr != gl {
+					continue
+				}
+				n++
+				if !(fn.Name() == "init" || strings.HasPrefix(fn.Name(), "init#")) {
+					good = false
+				}
+				switch v := st.Val.(type) {
+				case *ssa.MakeMap, *ssa.MakeSlice, *ssa.Alloc, *ssa.MakeChan:
+				case *ssa.Call:
+					if c := v.Common().StaticCallee(); c == nil || c.String() != "regexp.MustCompile" {
+						good = false
+					}
+				default:
+					good = false
+				}
+			}
+		}
+	}
+	if gl.Pkg != nil {
+		if init := gl.Pkg.Func("init"); init != nil {
+			for _, b := range init.Blocks {
+				for _, ins := range b.Instrs {
+					if st, ok := ins.(*ssa.Store); ok && st.Addr == gl {
+						n++
+						switch v := st.Val.(type) {
+						case *ssa.MakeMap, *ssa.MakeSlice, *ssa.Alloc, *ssa.MakeChan:
+						case *ssa.Call:
+							if c := v.Common().StaticCallee(); c == nil || c.String() != "regexp.MustCompile" {
+								good = false
+							}
+						default:
+							good = false
+						}
+					}
+				}
+			}
+		}
+	}
+	r := good && n > 0
+	g.globalNonNil[gl] = r
+	return r
+}
+
+// globalPattern: the variable is assigned once, in init, regexp.MustCompile of a constant.
+func (g *Gen) globalPattern(gl *ssa.Global) (string, bool) {
+	if !g.globalSetNonNilOnce(gl) {
+		return "", false
+	}
+	pat, n := "", 0
+	scan := func(fn *ssa.Function) {
+		for _, b := range fn.Blocks {
+			for _, ins := range b.Instrs {
+				st, ok := ins.(*ssa.Store)
+				if !ok || st.Addr != gl {
+					continue
+				}
+				n++
+				if c, ok := st.Val.(*ssa.Call); ok && len(c.Common().Args) == 1 {
+					if k, ok := c.Common().Args[0].(*ssa.Const); ok && k.Value != nil && k.Value.Kind() == constant.String {
+						pat = constant.StringVal(k.Value)
+						continue
+					}
+				}
+				n += 100
+			}
+		}
+	}
+	for _, fname := range g.fnames {
+		scan(g.funcs[fname])
+	}
+	if init := gl.Pkg.Func("init"); init != nil {
+		scan(init)
+	}
+	return pat, n == 1
+}
+
+// patternMinLen: a lower bound on the number of characters of any match of the pattern (0 when unknown).
+func patternMinLen(pat string) int {
+	re, err := syntax.Parse(pat, syntax.Perl)
+	if err != nil {
+		return 0
+	}
+	var min func(r *syntax.Regexp) int
+	min = func(r *syntax.Regexp) int {
+		switch r.Op {
+		case syntax.OpLiteral:
+			return len(r.Rune)
+		case syntax.OpCharClass, syntax.OpAnyCharNotNL, syntax.OpAnyChar:
+			return 1
+		case syntax.OpCapture:
+			return min(r.Sub[0])
+		case syntax.OpPlus:
+			return min(r.Sub[0])
+		case syntax.OpRepeat:
+			return r.Min * min(r.Sub[0])
+		case syntax.OpConcat:
+			n := 0
+			for _, s := range r.Sub {
+				n += min(s)
+			}
+			return n
+		case syntax.OpAlternate:
+			n := -1
+			for _, s := range r.Sub {
+				if m := min(s); n < 0 || m < n {
+					n = m
+				}
+			}
+			if n < 0 {
+				return 0
+			}
+			return n
+		}
+		return 0
+	}
+	return min(re)
 }
